@@ -314,15 +314,17 @@ def check_C10(ctx, rep):
 
 def check_C11(ctx, rep):
     rep.clauses_decided += ['head >= 0 after every step, missing-transition default, blank extension, write before move (M6)',
-                            'verdict loop and trace loop are the same machine; step precondition holds at every call; verdicts only on halting states (R-TM)',
+                            'verdict loop and trace loop conform to one counter model for budgets 0..3 x (never halts | accepts / rejects after 0..3 steps) x word length 0 / 2: steps = min(j, k), no step in a halting state, verdict True / False / None, trace length steps + 1, initial tape = word or one blank (R-TM.model)',
                             'same default budget at the entry points, forwarded by the enumerator (R-TM.budget)']
     rep.not_decided += ['step-by-step agreement with delta beyond those facts']
     P = ctx.prog.func
     models.check_tm_step(ctx, rep, P('tm_algorithms.tm_do_transition'))
-    misc.check_tm_loops(ctx, rep, P('tm_algorithms.tm_accepts_word'), P('tm_algorithms.tm_simulate_word'))
     from .rules import tmcount
-    for nm in ('tm_algorithms.tm_accepts_word', 'tm_algorithms.tm_simulate_word'):
-        tmcount.check_step_count(ctx, rep, ctx.prog.func(nm))
+    # the verdict loop and the trace loop are judged against ONE counter model (budget x halting scenario x word length):
+    # two loops that both conform are the same machine, however each of them is written
+    if tmcount.check_scenarios(ctx, rep, P('tm_algorithms.tm_accepts_word'), 'verdict') + tmcount.check_scenarios(ctx, rep, P('tm_algorithms.tm_simulate_word'), 'trace') < 2:
+        # outside the counter fragment: fall back to the syntactic comparison of the two loops
+        misc.check_tm_loops(ctx, rep, P('tm_algorithms.tm_accepts_word'), P('tm_algorithms.tm_simulate_word'))
     misc.check_tm_budget(ctx, rep, [P('tm_algorithms.tm_accepts_word'), P('tm_algorithms.tm_simulate_word'), P('tm_algorithms.tm_words_up_to_n')],
                          P('tm_algorithms.tm_words_up_to_n'))
     _effect_on(ctx, rep, ['tm_algorithms.tm_accepts_word', 'tm_algorithms.tm_simulate_word', 'tm_algorithms.tm_words_up_to_n', 'tm_algorithms.tm_do_transition'], shared=False)
